@@ -56,7 +56,6 @@ KNOWN: dict[tuple[str, str, str], int] = {
     ("emitters/models_emitter.py", "_generate_init_py_content", "    '{name_to_export}',"): 0,
     ("helpers/endpoint_utils.py", "get_model_stub_args", '{prop}=""'): 0,   # not used by any emitter (dead helper)
     ("helpers/type_resolution/named_resolver.py", "resolve", '"{name_to_add}"'): 0,   # forward-reference class name
-    ("visit/client_visitor.py", "_generate_client_implementation", '"""Client for \'{tag}\' endpoints."""'): 13,
     ("visit/client_visitor.py", "generate_client_protocol", "def {module_name}(self) -> '{protocol_name}':"): 0,
     ("visit/client_visitor.py", "_generate_client_implementation", "Client for '{tag}' endpoints."): 12,
     ("visit/client_visitor.py", "_generate_client_implementation", "{spec.title} (version {spec.version})"): 15,
@@ -66,7 +65,6 @@ KNOWN: dict[tuple[str, str, str], int] = {
     ("visit/docs_visitor.py", "visit", "### {op.operation_id}\n"): 0,
     ("visit/docs_visitor.py", "visit", "{desc}\n"): 0,
     ("visit/endpoint/endpoint_visitor.py", "generate_endpoint_protocol", '"""Protocol defining the interface of {class_name} for dependency injection."""'): 0,
-    ("visit/endpoint/endpoint_visitor.py", "_generate_endpoint_implementation", '"""Client for {tag} endpoints. Uses HttpTransport for all HTTP and header management."""'): 13,
     ("visit/endpoint/generators/endpoint_method_generator.py", "_generate_implementation_method", 'url = f"{self.base_url}{formatted_path}"'): 0,   # path template: not a C15 text position (request URL, property C04)
     ("visit/endpoint/generators/endpoint_method_generator.py", "_generate_implementation_method", '"{op.method.value.upper()}", url,'): 0,   # HTTP verb enum
     ("visit/endpoint/generators/endpoint_method_generator.py", "_generate_implementation_method", "{op.summary or op.operation_id}"): 14,
@@ -112,6 +110,17 @@ KNOWN: dict[tuple[str, str, str], int] = {
     (U, "generate_url_and_args", "escaper: writer.write_line(f'    **({{\"Content-Type\": {raw_content_type!r}}} if bytes_content is not None else {{}}),')"): 20,
     (U, "generate_url_and_args", '    **({"Content-Type": {raw_content_type!r}} if bytes_content is not None else {}),'): 20,
     ("core/writers/code_writer.py", "python_string_literal", "'\"' + {value.encode('unicode_escape').decode('ascii').replace('\"', '\\\\\"')} + '\"'"): 5,   # the escaper of sites 5-7 itself (Escape.ascii_lit)
+    # ---- docstring sites escaped with documentation_writer.escape_docstring_text
+    ("visit/client_visitor.py", "_generate_client_implementation", "escaper: docstring_lines.append(escape_docstring_text(f'{spec.title} (version {spec.version})'))"): 15,
+    ("visit/client_visitor.py", "_generate_client_implementation", "escaper: writer.write_line(f"): 13,
+    ("visit/client_visitor.py", "_generate_client_implementation", '"""Client for \'{escape_docstring_text(tag)}\' endpoints."""'): 13,
+    ("visit/endpoint/endpoint_visitor.py", "_generate_endpoint_implementation", "escaper: writer.write_line(f"): 13,
+    ("visit/endpoint/endpoint_visitor.py", "_generate_endpoint_implementation", '"""Client for {escape_docstring_text(tag)} endpoints. Uses HttpTransport'): 13,
+    ("visit/endpoint/generators/endpoint_method_generator.py", "_generate_implementation_method", "escaper: writer.write_line(escape_docstring_text(f'{op.summary or op.operation_id}'))"): 14,
+    ("visit/endpoint/generators/endpoint_method_generator.py", "_generate_implementation_method", "escaper: writer.write_line(escape_docstring_text(f'- {content_type}'))"): 14,
+    ("visit/model/dataclass_generator.py", "_generate_untyped_wrapper_class", "escaper: description = escape_docstring_text(description)"): 11,
+    ("visit/model/dataclass_generator.py", "_generate_typed_wrapper_class", "escaper: description = escape_docstring_text(description)"): 11,
+    ("core/writers/documentation_writer.py", "render_docstring", "escaper: lines[1:] = [escape_docstring_text(line) for line in lines[1:]]"): 12,
     (U, "generate_url_and_args", '{param_var_name} = quote(str(DataclassSerializer.serialize({param_var_name})), safe="")'): 0,   # sanitised identifier only
 }
 # every construction of a DocumentationBlock is an instance of site 12; the functions allowed to build one:
@@ -243,7 +252,7 @@ def scan(src_root: Path) -> tuple[list[tuple[str, int, str, str]], list[tuple[st
                 f = node.func
                 nm = f.attr if isinstance(f, ast.Attribute) else f.id if isinstance(f, ast.Name) else ""
                 if (nm == "dumps" and isinstance(f, ast.Attribute) and isinstance(f.value, ast.Name) and f.value.id == "json") \
-                        or nm in ("python_string_literal", "repr"):
+                        or nm in ("python_string_literal", "repr", "escape_docstring_text"):
                     esc = node
             if isinstance(node, ast.FormattedValue) and node.conversion == 114:
                 esc = node
